@@ -173,7 +173,9 @@ def classify(diags, meta):
                 if not s.get("is_primary"):
                     for o in obs:
                         if o["kind"] == "clause" and o["from"] <= s["line_start"] <= o["to"]:
-                            callee_tag = split_tag(o["id"])[0].replace("req:", "")
+                            nm, tags = split_tag(o["id"])
+                            # a named `requires` owned by other properties hands its ownership to the caller's failure
+                            callee_tag = nm.replace("req:", "") + "".join(f" @{t}" for t in tags)
         if ob_id is None:
             cands = []
             for s in spans:
@@ -269,7 +271,16 @@ def check_unit(u, scratch, args):
     failed_items = {f["item"] for f in failures}
     for o in meta["obligations"]:
         if o["id"].startswith("req:"):
-            continue  # a named `requires` clause: checked at every call site (part of the callers' body obligations)
+            # a named `requires` clause: checked at every call site (part of the callers' body obligations); listed on its
+            # own only when it is tagged for a property (e.g. a protocol precondition that IS that property's obligation)
+            nm, tags = split_tag(o["id"])
+            if not tags:
+                continue
+            short = nm.replace("req:", "")
+            st = "failed" if any(split_tag(f["obligation"])[0].endswith("/" + short) for f in failures) else "discharged"
+            res["obligations"].append({"id": f"callers_establish:{short}" + "".join(f" @{t}" for t in tags), "item": o["item"],
+                                       "kind": "protocol-precondition", "status": st, "back_end": "verus/z3"})
+            continue
         st = "failed" if o["id"] in failed_ids else ("discharged" if o["item"] not in failed_items or True else "?")
         res["obligations"].append({"id": o["id"], "item": o["item"], "kind": o["kind"], "status": st,
                                    "back_end": "verus/z3"})
